@@ -1081,3 +1081,54 @@ def level_loop_exits(repo, rep, rule):
                 rep.ok(rule, f"{SPECPART_C}:{cf.line(n)} pt_fld", cf.text(n.get("_p") or n)[:60], "after steps 1a-1c of the level")
     rep.ok(rule, f"{SPECPART_C}:{cf.line(level)} pt_fld", f"level loop with {nex} exit(s)", "no exit precedes the flooding of the current level")
     return nex
+
+
+def queue_once_per_visit(repo, rep, rule):
+    """pt_fld: the FIFO is a ring of nspec slots, so every bin may sit in it at most once at a time.  A `fifo_add(q, end, X)` inside a loop over the
+    neighbours of a bin where X does NOT change with the loop (the visited bin itself, not the neighbour) must leave that loop at once (`break`):
+    otherwise the bin is queued once per matching neighbour and the ring overflows on small / striped grids (the end marker is overwritten and the level's
+    seeds become spurious basins)."""
+    cf = core(repo)
+    fn = cf.funcs.get("pt_fld")
+    if fn is None:
+        raise AnalysisError("pt_fld vanished")
+    n = 0
+    for c in cf.walk(fn):
+        if c.get("kind") != "CallExpr":
+            continue
+        t = ex(c)
+        if not (t[0] == "call" and show(t[1]) == "fifo_add") and "fifo_add" not in cf.text(c)[:12]:
+            continue
+        args = [a for a in c.get("inner", [])[1:]]
+        if len(args) < 3:
+            continue
+        loops = enclosing_loops(cf, c)
+        if not loops:
+            continue
+        loop, cl = loops[0]
+        if cl is None or "neigh" not in show(cl[2]):
+            continue            # only loops over the neighbours of a bin (bound = the bin's neighbour count)
+        x = ex(args[2])
+        if x[0] != "var":
+            continue
+        # is the queued variable (re)assigned inside the innermost loop?  then it is the neighbour, guarded by its own mark
+        varies = body_assigns_var(cf, loop, x[1]) or x[1] == cl[0]
+        n += 1
+        if varies:
+            rep.ok(rule, f"{SPECPART_C}:{cf.line(c)} pt_fld", cf.text(c)[:60], "queues the neighbour visited by the loop (one candidate per iteration)")
+            continue
+        # the statement list that holds the call must contain a break after it
+        p = c.get("_p")
+        while p is not None and p.get("kind") != "CompoundStmt":
+            p = p.get("_p")
+        sib = stmts(p) if p is not None else []
+        idx = next((i for i, s_ in enumerate(sib) if any(y is c for y in cf.walk(s_))), None)
+        has_break = idx is not None and any(s_.get("kind") == "BreakStmt" for s_ in sib[idx + 1:])
+        if has_break:
+            rep.ok(rule, f"{SPECPART_C}:{cf.line(c)} pt_fld", cf.text(c)[:60], "the visited bin is queued and the neighbour loop is left at once")
+        else:
+            rep.fail(rule, SPECPART_C, cf.line(c), "pt_fld", cf.text(c)[:80],
+                     f"'{x[1]}' does not change inside the neighbour loop and the loop goes on after queueing it: the bin enters the ring FIFO once per matching "
+                     "neighbour; the ring has nspec slots, so on small / striped grids it wraps, the end marker is lost and seeds of the level become spurious basins",
+                     anchor="fifo:queued-once")
+    return n
